@@ -16,6 +16,8 @@ bucket holds, ascending, modulo their number; a step that needs a stored event i
 empty bucket):
   ("del", k)  ("rep", (k, spec))  ("rlast", spec)  ("ups", [(k | None, spec), ...])
   ("other", spec) = insert into the second bucket   ("reset", None) = delete_bucket + create_bucket
+  ("alias", ([spec..], [index..])) = bulk insert of a list in which the SAME Event object occurs at every
+  position that carries the same index (n * [event], [e, other, e]): each occurrence is one inserted event
 """
 import copy
 import shutil
@@ -24,7 +26,7 @@ import tempfile
 from . import c01 as base
 from . import store_hist as sh
 
-HIST_KINDS = ("del", "rep", "rlast", "ups", "other", "reset")
+HIST_KINDS = ("del", "rep", "rlast", "ups", "other", "reset", "alias")
 
 
 def is_history(steps):
@@ -41,6 +43,8 @@ def specs_of(kind, arg):
         return [arg[1]]
     if kind == "ups":
         return [s for _, s in arg]
+    if kind == "alias":
+        return [arg[0][i] for i in arg[1]]
     return []
 
 
@@ -56,6 +60,8 @@ def shape(steps):
             out.append("ups[" + ",".join("new" if i is None else str(i) for i, _ in a) + "]")
         elif k == "many":
             out.append(f"many({len(a)})")
+        elif k == "alias":
+            out.append("alias" + str(list(a[1])))
         else:
             out.append(k)
     return out
@@ -75,6 +81,8 @@ def step_json(kind, arg):
         return [kind, [arg[0], sj(arg[1])]]
     if kind == "ups":
         return [kind, [[k, sj(s)] for k, s in arg]]
+    if kind == "alias":
+        return [kind, [[sj(s) for s in arg[0]], list(arg[1])]]
     return [kind, arg]
 
 
@@ -87,6 +95,8 @@ def step_unjson(kind, j, spec):
         return (kind, (j[0], spec(j[1])))
     if kind == "ups":
         return (kind, [(k, spec(s)) for k, s in j])
+    if kind == "alias":
+        return (kind, ([spec(s) for s in j[0]], list(j[1])))
     return (kind, j)
 
 
@@ -135,6 +145,8 @@ def history_corpus():
                 + [("other", s()), ("del", -1)] + one() + [("other", s())] + [("many", [s(), s()])] + [("del", 1)] + one()))
     out.append(("hist-recreate", one(3) + [("reset", None)] + one(2) + [("del", 0)] + one() + [("reset", None), ("reset", None)]
                 + one() + [("many", [s(), s()]), ("del", 1)] + one()))
+    out.append(("hist-alias", one() + [("alias", ([s()], [0, 0]))] + one() + [("alias", ([s(), s()], [0, 1, 0])), ("del", 1)]
+                + [("alias", ([s()], [0, 0, 0]))] + one() + [("alias", ([s(), s(), s()], [2, 0, 1, 0, 2]))] + one()))
     out.append(("hist-empty-first", [("del", 0), ("rlast", s()), ("ups", [(0, s())])] + one() + [("del", 0)] + one(2)))
     return out
 
@@ -160,8 +172,11 @@ def random_history(rng, n):
             steps.append(("rlast", s()))
         elif r < 0.89:
             steps.append(("ups", [(rng.choice([None, None, rng.randrange(-2, 6)]), s()) for _ in range(rng.choice([1, 2, 3, 4]))]))
-        elif r < 0.97:
+        elif r < 0.95:
             steps.append(("other", s()))
+        elif r < 0.98:
+            specs = [s() for _ in range(rng.choice([1, 1, 2, 3]))]
+            steps.append(("alias", (specs, [rng.randrange(len(specs)) for _ in range(rng.choice([2, 3, 4]))])))
         else:
             steps.append(("reset", None))
     steps.append(("one", s()))
@@ -247,6 +262,14 @@ def run_step(env, si, kind, arg, before):
         r, ex = record([6, 1, ws], lambda: bucket.insert(events), lambda r: [0])
         if ex is not None:
             fails.append(("insert-raised", f"bulk insert with ids raised {type(ex).__name__}: {ex}", si))
+            return before
+    elif kind == "alias":
+        objs = [base.mk_event(x) for x in arg[0]]
+        events = [objs[j] for j in arg[1]]
+        new_payloads = [base.expected(arg[0][j]) for j in arg[1]]
+        r, ex = record([6, 1, [wire(arg[0][j]) for j in arg[1]]], lambda: bucket.insert(events), lambda r: [0])
+        if ex is not None:
+            fails.append(("insert-raised", f"bulk insert raised {type(ex).__name__}: {ex}", si))
             return before
     elif kind == "other":
         r, ex = record([5, 2, spec_w(arg)], lambda: ds["b2"].insert(base.mk_event(arg)),
